@@ -371,3 +371,172 @@ Proof.
       pose proof (HT old Hin (q, nd) Hq) as Hc. cbn [fst] in Hc. congruence.
 Qed.
 End Stale2.
+
+(* ------------------------------------------------------------------ the three rewriting commands *)
+Section Stale3.
+Variable c : cfgT.
+Variable f0 : fsT.
+Variable cmd : command.
+Variable e : env.
+Hypothesis Hcfg : wf_cfg c = true.
+Hypothesis Hreal : e_pretend e = false.
+
+Local Notation J := (C11P.J c f0 cmd false).
+Local Notation Sf := (C11P.Sf c f0 cmd).
+Local Notation Phi := (C11P.Phi c f0 cmd false).
+Local Notation K := (K c f0 cmd).
+Local Notation JE := (JE c f0 cmd false).
+
+Lemma KJ NS g : K NS g -> J g.
+Proof. apply K_J. Qed.
+Lemma KS NS g : K NS g -> Sf g.
+Proof. apply KSf. Qed.
+
+Lemma s_write_layerfile NS l n : (forall m, In m NS -> plain m) -> l_path l = layer_path c n -> plain n -> In n NS ->
+  lf_wf (l_base l) (l_mounts l) (l_exports l) = true -> from_old c f0 cmd (l_base l) (l_mounts l) (l_exports l) ->
+  hoare (K NS) (write_layerfile e l) (fun _ => K NS) Sf.
+Proof.
+  intros HNS Hp Hn Hin Hwf Hold. unfold write_layerfile, layerconfig_path. rewrite Hp.
+  change D_LayerconfigFile with LCF. rewrite (PC_eq c Hcfg n Hn).
+  apply (wfa_K c f0 cmd e Hcfg Hreal NS HNS n); auto. now apply good_rewrite.
+Qed.
+
+Lemma one_plain n : plain n -> forall m, In m [n] -> plain m.
+Proof. intros Hn m [<-|[]]. exact Hn. Qed.
+
+Lemma s_rebase ld name newbase : ML c f0 ld -> cmd = CRebase name newbase ->
+  hoare (K [name]) (rebase_layer e c ld name newbase) (fun _ => J) Sf.
+Proof.
+  intros HML Hcmd. unfold rebase_layer. apply h_guard_then; [apply KS|]. intros G1.
+  apply andb_true_iff in G1 as [Gn Gb]. apply test_name_need in Gn as [Hne Hleg]. apply test_name_opt in Gb.
+  pose proof (legal_plain _ Hleg Hne) as Hpn.
+  destruct (lm_get (ld_map ld) name) as [l|] eqn:El; [|apply h_panic; apply KS].
+  destruct (ML_get _ _ _ _ _ HML El) as [(Hp & Hwf & o & Ho & Hm & Hx & Hb) Hn].
+  assert (PG : forall b, hoare (K [name]) (guard b) (fun _ => K [name]) Sf) by (intros b; apply (p_guard _ _ (KS [name]))).
+  eapply h_bind; [apply PG|]. intros u1. eapply h_bind; [apply PG|]. intros u2. cbv zeta.
+  eapply h_bind; [apply PG|]. intros u3. eapply h_bind; [apply PG|]. intros u4.
+  apply h_bind with (Q := fun _ => K [name]).
+  { unfold renormalize. destruct (normalize_order _); [apply h_ret; auto|apply h_diverge; apply KS]. }
+  intros ld'. eapply h_bind; [|intros u5; apply h_ret; intros g Hg; exact Hg].
+  eapply h_post; [apply (s_write_layerfile [name] _ name (one_plain name Hpn))|intros u g; apply KJ].
+  - cbn [set_base l_path]. now rewrite Hp, Hn.
+  - exact Hpn.
+  - now left.
+  - cbn [set_base l_base l_mounts l_exports]. apply lf_wf_parts in Hwf as (_ & H2 & H3). apply lf_wf_parts. auto.
+  - cbn [set_base l_base l_mounts l_exports]. exists o. repeat split; auto. right. rewrite Hcmd. reflexivity.
+Qed.
+
+Lemma s_add ld name base cf : ML c f0 ld -> cmd = CAdd name base cf -> cmd_ok c f0 cmd = true -> K [name] f0 ->
+  hoare (fun g => g = f0) (add_layer e c ld name base cf) (fun _ => J) Sf.
+Proof.
+  intros HML Hcmd Hok HK0. unfold add_layer.
+  assert (P0S : forall g, g = f0 -> Sf g) by (intros g ->; now apply (KS [name])).
+  apply h_guard_then; [exact P0S|]. intros G1. apply andb_true_iff in G1 as [Gn Gb].
+  apply test_name_free in Gn as [Hne Hleg]. apply test_name_opt in Gb. pose proof (legal_plain _ Hleg Hne) as Hpn.
+  apply h_guard_then; [exact P0S|]. intros G2.
+  apply h_get_fs_eq. cbv zeta.
+  match goal with |- hoare _ (match ?x with _ => _ end) _ _ => destruct x as [[ms es]|] eqn:EB end;
+    [|apply h_fail; exact P0S].
+  assert (Kk : lf_wf base ms es = true /\ from_old c f0 cmd base ms es).
+  { rewrite Hcmd in Hok. cbn [cmd_ok] in Hok.
+    destruct (negb (beq cf []) || beq base []).
+    - destruct (default_layerinfo c f0 cf) as [lf|] eqn:ED; [|discriminate]. injection EB as <- <-.
+      destruct (default_layerinfo_read _ _ _ _ ED) as (content & ->).
+      destruct (read_layerfile_wf content) as (_ & W2 & W3).
+      split; [apply lf_wf_parts; auto|].
+      unfold add_basis_ok in Hok. rewrite ED in Hok. apply existsb_exists in Hok as (o & Ho & Hq).
+      apply andb_true_iff in Hq as [Hq1 Hq2].
+      apply (list_beq_true nmount_beq nmount_beq_true) in Hq1, Hq2.
+      exists o. repeat split; auto. right. rewrite Hcmd. reflexivity.
+    - destruct base as [|b0 br]; [discriminate|].
+      destruct (lm_get (ld_map ld) (b0 :: br)) as [pl|] eqn:EP; [|discriminate]. injection EB as <- <-.
+      destruct (ML_get _ _ _ _ _ HML EP) as [(_ & Hwf & o & Ho & Hm & Hx & _) _].
+      apply lf_wf_parts in Hwf as (_ & W2 & W3). split; [apply lf_wf_parts; auto|].
+      exists o. repeat split; auto. right. rewrite Hcmd. reflexivity. }
+  destruct Kk as [Kwf Kold].
+  eapply h_pre; [|intros g ->; exact HK0].
+  eapply h_bind; [apply (K_mkdir_layer c f0 cmd e Hcfg Hreal [name] name Hpn)|]. intros u1.
+  eapply h_bind.
+  { eapply h_post; [apply (s_write_layerfile [name] _ name (one_plain name Hpn)); auto; now left|intros u g; apply KJ]. }
+  intros u2. cbn beta.
+  apply (p_bind J Sf); [apply p_fs_mkdir|]. intros u3.
+  apply (p_bind J Sf); [|intros u4; apply p_renormalize].
+  destruct base.
+  - apply (p_bind J Sf); [apply p_fs_mkdir|]. intros u5.
+    apply p_fs_write_text. intros y. apply Phi_join2; [apply plainb_spec; reflexivity| |];
+      intros H; apply (f_equal (@length _)) in H; vm_compute in H; discriminate.
+  - apply (p_bind J Sf); [apply p_fs_mkdir|]. intros u5. apply p_fs_mkdir.
+Qed.
+
+(* removing export links keeps K and only removes entries *)
+Lemma p_links_K NS l : pres (fun g => K NS g /\ incl g f0) Sf (remove_export_links e c l).
+Proof.
+  assert (HE : forall g, K NS g /\ incl g f0 -> Sf g) by (intros g [Hg _]; now apply (KS NS)).
+  unfold remove_export_links. apply (p_mapM _ Sf). intros lt _.
+  apply (p_bind _ Sf); [apply (p_get_fs _ Sf)|]. intros g0.
+  destruct (negb (exists_ g0 (fst lt))); [apply (p_ret _ Sf)|].
+  destruct (negb (is_symlink g0 (fst lt))); [apply (p_fail _ Sf HE)|].
+  apply h_fs_remove; [exact Hreal|exact HE|]. intros g g' [Hg Hi] Hr.
+  unfold remove_all in Hr. destruct (beq (fst lt) root); [discriminate|]. injection Hr as <-.
+  split; [now apply K_filter|]. intros x Hx. apply filter_In in Hx as [Hx _]. now apply Hi.
+Qed.
+
+Lemma s_rename ld old new : ML c f0 ld -> cmd = CRename old new -> new <> LCF ->
+  (forall k, In k (ld_map ld) -> plain (l_name k) /\ In (l_name k) (children f0 (c_layers c))) ->
+  J f0 -> NoDup (map fst f0) ->
+  (forall nn en, In nn (children f0 (c_layers c)) \/ nn = new -> In en f0 -> under (TC c nn) (fst en) = false) ->
+  (forall en, In en f0 -> at_or_under (layer_path c new) (fst en) = false) ->
+  hoare (fun g => g = f0) (rename_layer e c ld old new) (fun _ => J) Sf.
+Proof.
+  intros HML Hcmd Hnew HN HJ0 ND0 HU R4. unfold rename_layer.
+  assert (P0S : forall g, g = f0 -> Sf g) by (intros g ->; now apply (J_Sf c f0 cmd false)).
+  apply h_guard_then; [exact P0S|]. intros G1. apply andb_true_iff in G1 as [Gold Gnew].
+  apply test_name_need in Gold as [Hne_o Hleg_o]. pose proof (test_name_free_none _ _ Gnew) as Hnone.
+  apply test_name_free in Gnew as [Hne_n Hleg_n].
+  pose proof (legal_plain _ Hleg_o Hne_o) as Hpo. pose proof (legal_plain _ Hleg_n Hne_n) as Hpn.
+  destruct (lm_get (ld_map ld) old) as [l|] eqn:El; [|apply h_panic; exact P0S].
+  destruct (ML_get _ _ _ _ _ HML El) as [(Hp & Hwf & o & Ho & Hm & Hx & Hb) Hn].
+  destruct (lm_get_in _ _ _ El) as [Hlin _].
+  assert (Hon : old <> new) by (intros ->; congruence).
+  set (KS0 := children_in_order e (ld_map ld) old).
+  set (NS := new :: old :: map l_name KS0).
+  assert (HNS : forall n, In n NS -> plain n).
+  { intros n [<-|[<-|Hn0]]; auto. apply in_map_iff in Hn0 as (k & <- & Hk). apply kids_sound in Hk as [Hk _]. now apply HN. }
+  assert (HK0 : K NS f0).
+  { split; [exact HJ0|split; [exact ND0|]]. intros n Hn0 en Hen. apply HU; [|exact Hen].
+    destruct Hn0 as [<-|[<-|Hn0]]; [now right|left|left].
+    - rewrite <- Hn. now apply HN.
+    - apply in_map_iff in Hn0 as (k & <- & Hk). apply kids_sound in Hk as [Hk _]. now apply HN. }
+  eapply h_pre with (P := fun g => K NS g /\ incl g f0); [|intros g ->; split; [exact HK0|apply incl_refl]].
+  assert (HE : forall g, K NS g /\ incl g f0 -> Sf g) by (intros g [Hg _]; now apply (KS NS)).
+  apply h_guard_then; [exact HE|]. intros _. apply h_guard_then; [exact HE|]. intros _. cbv zeta.
+  apply h_guard_then; [exact HE|]. intros _.
+  eapply h_bind; [apply p_links_K|]. intros u1.
+  (* the directory *)
+  apply h_bind with (Q := fun _ => K NS).
+  { rewrite Hp, Hn, (LP_eq c Hcfg old Hpo), (LP_eq c Hcfg new Hpn).
+    apply h_fs_rename; [exact Hreal|exact HE|]. intros g g' [Hg Hi] Hr.
+    apply (K_dir_rename c f0 cmd e Hcfg Hreal NS HNS old new g g'); auto.
+    - right. now left.
+    - intros en Hen. rewrite <- (LP_eq c Hcfg new Hpn). apply R4. now apply Hi.
+    - intros y. rewrite <- (LP_eq c Hcfg new Hpn). unfold layer_path. apply Phi_join2; auto. now apply legal_not_special. }
+  intros u2.
+  (* the children *)
+  apply h_bind with (Q := fun _ => K NS).
+  { apply (h_mapM (K NS) Sf). intros k Hk. pose proof Hk as Hk0. apply kids_sound in Hk as [Hk _].
+    unfold ML in HML. rewrite Forall_forall in HML. destruct (HML k Hk) as (Hkp & Hkwf & ok & Hok & Hkm & Hkx & _).
+    destruct (HN k Hk) as [Hkn _].
+    apply (s_write_layerfile NS _ (l_name k) HNS); cbn [set_base l_path l_base l_mounts l_exports]; auto.
+    - right. right. now apply in_map.
+    - apply lf_wf_parts in Hkwf as (_ & H2 & H3). apply lf_wf_parts. repeat split; auto.
+      apply base_ok_tok. now apply legal_tok.
+    - exists ok. repeat split; auto. right. rewrite Hcmd. reflexivity. }
+  intros u3.
+  apply h_bind with (Q := fun _ => K NS).
+  { unfold renormalize. destruct (normalize_order _); [apply h_ret; auto|apply h_diverge; apply (KS NS)]. }
+  intros ld'. eapply h_bind; [|intros u5; apply h_ret; intros g Hg; exact Hg].
+  eapply h_post; [apply (s_write_layerfile NS _ new HNS)|intros u g; apply KJ]; cbn [set_name_path l_path l_base l_mounts l_exports]; auto.
+  - now left.
+  - exists o. repeat split; auto.
+Qed.
+End Stale3.
